@@ -21,7 +21,9 @@ RULE = ("seeded client histories (1-3 connections; absolute-form http and https 
         "port followed by plain-HTTP / HTTPS requests inside the tunnel, SOCKS5 and transparent entries, reverse http/https) "
         "through the real proxy in modes regular, transparent, socks5, reverse:http(s), upstream:http and upstream:https, "
         "with and without upstream_auth (a unique marker credential), x segmentation x eager/lazy connection strategy x "
-        "occasional upstream connect failures / CONNECT refusals. Oracle over the plaintext every peer RECEIVED (TLS "
+        "occasional upstream connect failures / CONNECT refusals x the upstream side (origin or upstream proxy) hanging up "
+        "an established server connection / CONNECT+TLS tunnel (idle timeout with close_notify, bare FIN, RST at a chosen "
+        "moment) while the client pauses before or trickles its next request (all modes). Oracle over the plaintext every peer RECEIVED (TLS "
         "peers decrypt with Python ssl): the marker may appear only as Proxy-Authorization of CONNECT / absolute-form "
         "requests at the upstream proxy, or as Authorization at the reverse target. non-trivial = upstream_auth set and "
         "at least one request reached a peer; distinct = distinct abstract event-log digests")
@@ -37,7 +39,9 @@ ASSUMPTIONS = ["VLoop keeps asyncio FIFO semantics; SimNet pipes behave like rel
                "the credential marker is unique: it cannot occur in any byte string the client sends"]
 EXPECTED_PROBES = ["proxy_connect", "proxy_absolute", "tunnel_plain_request", "tunnel_tls_request", "reverse_request",
                    "origin_request", "upstream_proxy_tls", "absolute_https_in_tunnel", "same_hostport_https_then_http",
-                   "same_hostport_http_then_https", "plain_http_for_tls_port_at_proxy", "marker_at_proxy", "marker_at_reverse_target", "no_auth_runs"]
+                   "same_hostport_http_then_https", "plain_http_for_tls_port_at_proxy", "marker_at_proxy", "marker_at_reverse_target", "no_auth_runs",
+                   "hangup_fired", "hangup_used_conn", "hangup_unused_tls_conn", "request_after_hangup_of_unused_tls_conn",
+                   "request_after_hangup_upstream_mode", "request_after_hangup_other_modes", "request_after_hangup_upstream_auth"]
 
 UP_HTTP = "upstream:http://p.test:3128"
 UP_HTTPS = "upstream:https://p.test:3128"
@@ -164,7 +168,41 @@ def generate(rng, tier):
         faults.append({"kind": "connect_error", "nth": r.choice([0, 0, 1, 2]), "err": r.choice(["refused", "timeout", "unreachable"])})
     if fam == "upstream" and r.random() < 0.08:
         faults.append({"kind": "proxy_connect_status", "status": r.choice([407, 502, 403])})
-    return {"family": fam + ("-tlsproxy" if mode == UP_HTTPS else ""), "modes": [mode], "eager": r.random() < 0.5,
+    eager_loop = r.random() < 0.5
+    # -- upstream side hangs up an established (still unused / idle) server connection -------------------------------
+    # The origin or the upstream proxy closes a connection the proxy has opened for a client (eager strategy: before the
+    # client is served) at a chosen moment, while the client delays or trickles its next request: the request that
+    # follows must be sent on a connection set up anew the same way (CONNECT + TLS to an https origin), and the
+    # credential must still go to the upstream proxy only.  Own rng site: scenarios without the fault keep their shape.
+    h = rng.at("c24-hangup")
+    tls_tunnel = [ci for ci, c in enumerate(clients)
+                  if any(s["op"] == "tls" for s in c["steps"]) and any(s["op"] == "connect" for s in c["steps"])]
+    if h.random() < (0.5 if tls_tunnel else 0.12):
+        ci = h.choice(tls_tunnel) if tls_tunnel else h.randrange(len(clients))
+        steps = clients[ci]["steps"]
+        first_setup = next((i for i, s in enumerate(steps) if s["op"] in ("connect", "socks")), None)
+        if first_setup and h.random() < 0.5:
+            del steps[:first_setup]          # the tunnel is the first thing this client asks for
+        last_setup = max([i for i, s in enumerate(steps) if s["op"] in ("connect", "socks", "tls")], default=-1)
+        pause = h.choice([0.0, 0.01, 0.2, 0.6, 0.6, 2.0, 2.0, 5.0])
+        nxt = last_setup + 1
+        if pause and nxt < len(steps):
+            steps.insert(nxt, {"op": "sleep", "t": pause})
+            nxt += 1
+        if nxt < len(steps) and steps[nxt]["op"] == "req" and h.random() < 0.5:
+            steps[nxt]["cutseed"] = h.randrange(1 << 30)      # ... or the request trickles in
+        if len(steps) > nxt + 1 and h.random() < 0.3:
+            steps.insert(nxt + 1, {"op": "sleep", "t": h.choice([0.3, 1.0, 3.0])})   # hang-up between two requests (used connection)
+        how = h.choice(["idle", "idle", "fin", "fin", "rst"])
+        f = {"kind": "hangup", "nth": h.choice([0, 0, 0, 0, 1, 1, 2]), "how": how}
+        if how == "idle":
+            f["idle"] = h.choice([0.05, 0.3, 0.3, 1.0, 3.0])      # peer closes after that long without traffic
+        else:
+            f["at"] = h.choice([0.0, 0.002, 0.05, 0.05, 0.4, 0.4, 1.5])   # seconds after the connection was accepted
+        faults.append(f)
+        if h.random() < 0.5:
+            options["connection_strategy"] = "eager"
+    return {"family": fam + ("-tlsproxy" if mode == UP_HTTPS else ""), "modes": [mode], "eager": eager_loop,
             "options": options, "clients": clients, "faults": faults}
 
 
@@ -252,6 +290,23 @@ def run(sc, keep_log=False):
         if f["kind"] == "proxy_connect_status":
             connect_status = f["status"]
     servers = []
+    hangups = []
+
+    async def watch_hangup(w, conn, f, is_proxy):
+        """The upstream side ends connection `conn` on its own: 'fin'/'rst' at a fixed time after accept (the peer task keeps
+        reading, what it writes afterwards is dropped by SimConn like a closed socket would), 'idle' = the peer's idle timer."""
+        t0 = w.loop.time()
+        if f.get("how") == "idle":
+            await asyncio.wait([conn.peer_task])
+        else:
+            await asyncio.sleep(float(f.get("at", 0.0)))
+        if conn.proxy_closed or conn.rx_eof:
+            return                      # the proxy was done with the connection first: nothing fired
+        if f.get("how") == "fin":
+            conn.send_eof()
+        elif f.get("how") == "rst":
+            conn.reset()
+        hangups.append({"conn": conn.id, "t0": t0, "t": w.loop.time(), "how": f.get("how"), "is_proxy": is_proxy})
 
     async def body(w):
         def planner(host, port, n, proto):
@@ -261,12 +316,19 @@ def run(sc, keep_log=False):
             is_proxy = proxy_addr is not None and (host, port) == proxy_addr
             tls = proxy_tls if is_proxy else port in X.TLS_PORTS
 
+            hang = next((f for f in faults if f["kind"] == "hangup" and f.get("nth") == n), None)
+
             def accept(conn):
                 servers.append(conn)
+                idle = 25.0
+                if hang is not None and hang.get("how") == "idle":
+                    idle = float(hang.get("idle", 1.0))      # the peer's own idle timeout: orderly close (TLS close_notify + FIN)
                 conn.peer_task = w.loop.create_task(
-                    X.serve_conn(w.loop, conn, log, addr=(host, port), is_proxy=is_proxy, tls=tls,
-                                 connect_status=connect_status if is_proxy else 200),
+                    X.serve_conn(w.loop, conn, log, addr=(host, port), is_proxy=is_proxy, tls=tls, idle=idle,
+                                 connect_status=connect_status if is_proxy else 200, tunnel_sniff=True),
                     name=f"sim-origin-{conn.id}")
+                if hang is not None:
+                    w.loop.create_task(watch_hangup(w, conn, hang, is_proxy), name=f"sim-hangup-{conn.id}")
             return ConnectPlan(accept=accept)
         w.net.connect_planner = planner
         tasks = [w.loop.create_task(run_client(w, ci, c, out), name=f"sim-clientpeer-{ci}")
@@ -289,6 +351,7 @@ def run(sc, keep_log=False):
     opts.setdefault("ssl_insecure", True)
     sim_s, w = W.run_world(body, eager=sc.get("eager", False), seed=sc.get("seed", 0), options=opts,
                            modes=sc["modes"], keep_log=keep_log)
+    w.hangups = hangups
     return log, out, w, sim_s
 
 
@@ -383,6 +446,10 @@ def oracle(sc, log, w):
                 place = "reverse_target"
             if zone == "tunnel" and e["tls"]:
                 place = "tunnel_tls"   # TLS with the origin inside the tunnel (https), as opposed to plain HTTP in a tunnel
+            elif zone == "tunnel" and shape.endswith("-https"):
+                # a request the client made over https arrived in the clear inside the tunnel: not the "plain-HTTP
+                # request inside a tunnel" situation (client_shape *-http), a different failure mode
+                place = "tunnel_plain_for_https"
             v.append({"class": "credential_leak",
                       "key": {"mode": fam, "zone": place, "peer_tls": bool(e["tls"]), "header": name.decode("latin1"),
                               "request": "connect" if is_connect else ("absolute" if b"://" in m.target else "origin-form"),
@@ -400,6 +467,26 @@ def oracle(sc, log, w):
                                   "got": "none" if not got else "other"},
                           "msg": f"{m.method.decode('latin1')} {m.target.decode('latin1')} reached {zone} peer {e['addr']} "
                                  f"with {allowed.decode()}={got!r}, expected [{want!r}]"})
+    # what the hang-up faults met (probes only)
+    tls_up = sorted(t for t, name, _ in w.hooks if name == "tls_established_server")
+    for hg in getattr(w, "hangups", []):
+        bump("hangup_fired")
+        mine = [e for e in log if e["conn"] == hg["conn"] and e.get("msg") is not None and e["t"] <= hg["t"]]
+        tunnel_open = any(e["zone"] == "proxy" and e["msg"].method.upper() == b"CONNECT" for e in mine)
+        used = any(e["msg"].method.upper() != b"CONNECT" for e in mine)
+        later = any(e.get("msg") is not None and e["conn"] != hg["conn"] and e["t"] > hg["t"]
+                    and e["msg"].method.upper() != b"CONNECT" for e in log)
+        if used:
+            bump("hangup_used_conn")
+        elif (sum(1 for t in tls_up if hg["t0"] <= t <= hg["t"]) >= (2 if hg["is_proxy"] and mode == UP_HTTPS else 1)
+              and (tunnel_open or not hg["is_proxy"])):
+            # TLS with the origin was up on this connection (through the tunnel if there is an upstream proxy), no request yet
+            bump("hangup_unused_tls_conn")
+            if later:
+                bump("request_after_hangup_of_unused_tls_conn")
+                bump("request_after_hangup_upstream_mode" if fam == "upstream" else "request_after_hangup_other_modes")
+                if auth and fam == "upstream":
+                    bump("request_after_hangup_upstream_auth")
     if w.crashes:
         t, msg, tb = w.crashes[0]
         v = [{"class": "crash", "key": {"where": tb.split(" @ ")[-1] if " @ " in tb else msg[:60], "exc": tb.split(":")[0]},
@@ -431,6 +518,10 @@ def execute(sc):
         1 for e in log if e["zone"] == "proxy" and e.get("msg") is not None and e["msg"].method.upper() == b"CONNECT")
     if refused:
         faults["proxy_refused_connect"] = refused
+    if w.hangups:
+        faults["upstream_hangup"] = len(w.hangups)
+        ev.extend(("hangup", hg["how"], hg["is_proxy"], round(hg["t"], 6)) for hg in w.hangups)
+        ev.sort(key=repr)
     reached = any(e.get("msg") is not None for e in log)
     states = {f"{e['zone']}:{'tls' if e['tls'] else 'plain'}:{e['msg'].method.decode('latin1') if e.get('msg') else 'garbage'}"
               for e in log}
